@@ -3,7 +3,7 @@ import re
 import vlib, gen_facts
 from props import codec_common as cc
 
-THEOREMS = ['C04_accept_checksum', 'C04_accept_no_missing_mandatory', 'C04_accept_tags_valid_unique']
+THEOREMS = ['C04_accept_checksum', 'C04_accept_tags_valid_unique', 'C04_accept_tags_unique_no_data', 'C04_accept_no_missing_mandatory', 'C04_accept_group_elements', 'C04_group_element_shape', 'C04_accept_values_from_input', 'C04_value_from_input_unfold', 'C04_finding_tail_dropped', 'C04_finding_misplaced_tail_dropped', 'C04_finding_tag_alias', 'C04_finding_automatic_duplicate', 'C04_finding_preamble_lenient', 'C04_finding_bodylength_unchecked', 'C04_finding_trailer_lenient', 'C04_finding_value_not_validated', 'C04_finding_nul_in_value', 'C04_finding_data_duplicate']
 KINDS = ('none', 'none', 'unknown_tag', 'foreign_tag', 'big_tag', 'dup', 'drop_mandatory', 'bad_chk', 'numtext', 'swap_sections', 'group_first',
          'count_mismatch', 'trailer_tag_in_body', 'dup_auto', 'begin_garbage', 'tag80', 'empty_tag', 'nul_in_value', 'len_data_bad', 'no_soh', 'truncate')
 OK = re.compile(r'^ok (H\[.*\] B\[.*\] T\[.*\]) re=(\S+)$')
@@ -65,7 +65,7 @@ def make_oracle(sc, meta, stats):
             return (False, 'value-text-not-validated' if 'value-text-not-validated' in classes else None)
         stats['accepted'] = stats.get('accepted', 0) + 1
         klass = None
-        for c in ('tag-alias', 'invalid-tag-accepted', 'preamble-lenient', 'trailer-lenient', 'automatic-duplicate', 'value-text-not-validated', 'nul-in-value', 'bodylength-unchecked'):
+        for c in ('tag-alias', 'data-duplicate', 'invalid-tag-accepted', 'preamble-lenient', 'trailer-lenient', 'automatic-duplicate', 'value-text-not-validated', 'nul-in-value', 'bodylength-unchecked'):
             if c in classes:
                 klass = c
                 break
